@@ -406,7 +406,7 @@ def c05_r1(ctx: Ctx, rule):
                     ok = all(isinstance(e, ast.Call) and call_name(e) == "valid_qualified_name" for e in elems)
                     why = "stores %s under the reference attribute %s without resolving it" % (norm(val), key.s)
                 else:
-                    ok = all(isinstance(e, ast.Call) and call_name(e) == "_auto_literal_conversion" for e in elems)
+                    ok = all(isinstance(e, ast.Call) and call_name(e) == ctx.literal_converter() for e in elems)
                     why = "stores %s under %s without literal normalisation" % (norm(val), key.s)
         if not ok:
             res.fail(rule.id, "raw-attribute-store::%s" % s.key, ctx.loc(s.func, s.node),
@@ -569,14 +569,15 @@ def c05_r3(ctx: Ctx, rule):
         cur = cur.orelse[0]
     for b in (cur.orelse if isinstance(cur, ast.If) else []):
         else_calls |= {call_name(c) for c in ast.walk(b) if isinstance(c, ast.Call)}
-    if "_auto_literal_conversion" not in else_calls:
+    conv = ctx.literal_converter()
+    if conv not in else_calls:
         # early-return form: `if refs: return ..; if times: return ..; return self._auto_literal_conversion(v)`
         host = next((q2 for q2 in ctx.helper_closure(norm_q) if any(x is ref_arm[2] for x in ast.walk(ctx.fn(q2).node))), norm_q)
         tail = [r for r in walk_function(ctx.fn(host).node) if isinstance(r, ast.Return) and r.value is not None and not any(x is r for arm_ in (ref_arm[2], time_arm[2]) for x in ast.walk(arm_))]
         for r in tail:
             else_calls |= {call_name(c) for c in ast.walk(r) if isinstance(c, ast.Call)}
-    res.ob("remaining attributes go through _auto_literal_conversion: %s" % ("_auto_literal_conversion" in else_calls))
-    if "_auto_literal_conversion" not in else_calls:
+    res.ob("remaining attributes go through _auto_literal_conversion: %s" % (conv in else_calls))
+    if conv not in else_calls:
         res.fail(rule.id, "partition::others-not-normalised", ctx.loc(norm_q, cur), "non-formal values are stored without _auto_literal_conversion",
                  "Literal('1', xsd:int) and 1 are stored as different values")
     # None => raise dominates the store
@@ -822,7 +823,7 @@ def literal_not_resolved(ctx: Ctx, rule):
     (_auto_literal_conversion) may re-home a QualifiedName object (URI-preserving) but never resolves a string or a Literal's lexical
     form: that would make the stored value depend on the order of add_namespace and add_attributes calls."""
     res = RuleResult()
-    q = M + ".ProvRecord._auto_literal_conversion"
+    q = M + ".ProvRecord." + ctx.literal_converter()
     if q not in ctx.p.functions:
         raise AnalysisError("anchor vanished: function %s" % q)
     n = 0
@@ -877,7 +878,7 @@ def literal_datatype_homed(ctx: Ctx, rule):
     Attribute names and name-valued attributes go through valid_qualified_name (which registers the namespace); a Literal kept as a
     Literal carries one more qualified name - its datatype.  The literal converter must home that one too."""
     res = RuleResult()
-    q = M + ".ProvRecord._auto_literal_conversion"
+    q = M + ".ProvRecord." + ctx.literal_converter()
     if q not in ctx.p.functions:
         raise AnalysisError("anchor vanished: function %s" % q)
     homed = []
@@ -909,7 +910,7 @@ def _with_inlined_record(fn):
     def run(ctx, rule):
         from ..inline import inlined_view
 
-        return fn(inlined_view(ctx, M + ".ProvRecord", exclude=frozenset({"_auto_literal_conversion"})), rule)
+        return fn(inlined_view(ctx, M + ".ProvRecord", exclude=frozenset({ctx.literal_converter()})), rule)
 
     run.__name__ = getattr(fn, "__name__", "rule")
     return run
@@ -929,7 +930,7 @@ def normaliser_micro(ctx: Ctx, rule):
     norm_q, norm_sites, mm = find_normaliser(ctx)
     from ..inline import inlined_function
 
-    nf = inlined_function(ctx, norm_q, exclude=frozenset({"_auto_literal_conversion"}))
+    nf = inlined_function(ctx, norm_q, exclude=frozenset({ctx.literal_converter()}))
     loops = [l for l in walk_function(nf.node) if isinstance(l, ast.For) and any(isinstance(x, ast.Attribute) and x.attr == mm for b in l.body for x in ast.walk(b))]
     if not loops:
         raise AnalysisError("the attribute loop of %s was not found" % short(norm_q))
@@ -966,7 +967,7 @@ def normaliser_micro(ctx: Ctx, rule):
     else:
         raise AnalysisError("anchor vanished: function %s" % pq)
     # (c)
-    cq = M + ".ProvRecord._auto_literal_conversion"
+    cq = M + ".ProvRecord." + ctx.literal_converter()
     for q2 in ctx.helper_closure(cq, 2):
         fi = ctx.fn(q2)
         for a in walk_function(fi.node):
